@@ -51,9 +51,10 @@ LEVEL_TEXT = ("Coq proofs about an executable Gallina transcription of leptos_ro
 LEVEL_NOTE = ("Trusted: Coq kernel, ExtrOcamlBasic extraction + OCaml driver, the Rust harness. The plain statement "
               "'router matches iff a flat route matches' is refuted by the faithful model (witnesses proved by "
               "vm_compute); the proved form excludes four decidable known classes (open findings F-C14-a..d), of which "
-              "k_optional is coarse (any table with an OptionalParamSegment): optional segments are covered by the "
-              "faithful model + correspondence run, the partition theorem and the refutation witnesses, not by the iff "
-              "theorem. params_are_segments / first_flat_route_wins / build_then_match are stated without base path. "
+              "k_optional is the placement of OptionalParamSegments the matcher does not handle like the table (optional "
+              "followed by another segment of its tuple, inside a nested tuple, or in a route with children; each "
+              "inhabited by a proved witness); optionals as a top-level suffix of a leaf route's tuple are inside the "
+              "theorems. All theorems are stated with and without base path and for tables with any number of routes. "
               "No axioms.")
 TECHNIQUE = "Coq proof (structural induction over nested segment tuples and route trees) + differential correspondence of the extracted model with the Rust code"
 
